@@ -9,8 +9,11 @@ fuzz_target!(|data: &[u8]| {
     // streams that declare an output above 1 MiB are skipped: the harness bounds generated output the same way
     if data.len() >= 4 {
         let inner = if data[0] == 0x13 && data.len() >= 8 { &data[4..] } else { data };
-        let declared = inner[1] as usize | (inner[2] as usize) << 8 | (inner[3] as usize) << 16;
-        if declared > (1 << 20) || (inner[0] == 0x11 && declared == 0) {
+        let mut declared = inner[1] as usize | (inner[2] as usize) << 8 | (inner[3] as usize) << 16;
+        if inner[0] == 0x11 && declared == 0 && inner.len() >= 8 {
+            declared = u32::from_le_bytes([inner[4], inner[5], inner[6], inner[7]]) as usize;
+        }
+        if declared > (1 << 20) {
             return;
         }
     }
